@@ -183,9 +183,21 @@ func (in *inliner) host(info *types.Info, pkg *types.Package, host *ast.FuncDecl
 		}
 	}
 	var rewriteList func(list []ast.Stmt) []ast.Stmt
+	hoisted := 0
 	rewriteList = func(list []ast.Stmt) []ast.Stmt {
 		var out []ast.Stmt
-		for _, s := range list {
+		for li := 0; li < len(list); li++ {
+			s := list[li]
+			// H: a helper with a body of several statements called inside a larger expression
+			// (`return Key{kind, util.FmtNum(x)}`): when everything the statement evaluates before the call is pure, the call
+			// is hoisted into `tmp := f(args)` in front of the statement, where the assignment shapes below take it apart
+			if hoisted < 16 {
+				if pre := in.hoist(info, s, callee); pre != nil {
+					hoisted++
+					list = append(append(append([]ast.Stmt{}, list[:li]...), pre, s), list[li+1:]...)
+					s = list[li]
+				}
+			}
 			switch x := s.(type) {
 			case *ast.ReturnStmt:
 				if len(x.Results) == 1 {
@@ -1265,4 +1277,157 @@ func copyInfo(dst, src *types.Info, root ast.Node) {
 		}
 		return true
 	})
+}
+
+
+// hoist looks, in evaluation order, for the first call inside the expressions of st (a return, an assignment, an
+// expression statement or an if condition) whose callee is an inlinable helper with exactly one result and a body that is
+// not a single return expression; it succeeds only when every expression evaluated before that call is pure. The call is
+// replaced by a fresh variable and the defining assignment is returned.
+func (in *inliner) hoist(info *types.Info, st ast.Stmt, callee func(*ast.CallExpr) (*ast.FuncDecl, types.Object)) ast.Stmt {
+	var roots []*ast.Expr
+	switch x := st.(type) {
+	case *ast.ReturnStmt:
+		for i := range x.Results {
+			roots = append(roots, &x.Results[i])
+		}
+	case *ast.AssignStmt:
+		if x.Tok != token.ASSIGN && x.Tok != token.DEFINE {
+			return nil
+		}
+		for _, l := range x.Lhs {
+			if !in.pure(info, l) {
+				return nil
+			}
+		}
+		for i := range x.Rhs {
+			roots = append(roots, &x.Rhs[i])
+		}
+	case *ast.ExprStmt:
+		roots = append(roots, &x.X)
+	case *ast.IfStmt:
+		if x.Init != nil {
+			return nil
+		}
+		roots = append(roots, &x.Cond)
+	default:
+		return nil
+	}
+	// a root that is itself the call is what the R / S / A shapes handle
+	for _, r := range roots {
+		if _, isCall := unparen(*r).(*ast.CallExpr); isCall && len(roots) == 1 {
+			if fd, _ := callee(unparen(*r).(*ast.CallExpr)); fd != nil {
+				return nil
+			}
+		}
+	}
+	var found *ast.Expr
+	blocked := false
+	var walk func(slot *ast.Expr)
+	walk = func(slot *ast.Expr) {
+		if found != nil || blocked || *slot == nil {
+			return
+		}
+		switch e := (*slot).(type) {
+		case *ast.ParenExpr:
+			walk(&e.X)
+		case *ast.CallExpr:
+			// operands first (Go evaluates the function value and the arguments before the call)
+			if _, isLit := e.Fun.(*ast.FuncLit); isLit {
+				blocked = true
+				return
+			}
+			if se, ok := e.Fun.(*ast.SelectorExpr); ok {
+				walk(&se.X)
+			}
+			for i := range e.Args {
+				walk(&e.Args[i])
+			}
+			if found != nil || blocked {
+				return
+			}
+			if tv, ok := info.Types[e.Fun]; ok && tv.IsType() {
+				return // a conversion
+			}
+			if fd, _ := callee(e); fd != nil && fd.Type.Results != nil && len(fd.Type.Results.List) == 1 && len(fd.Type.Results.List[0].Names) <= 1 {
+				single := len(fd.Body.List) == 1
+				if single {
+					_, single = fd.Body.List[0].(*ast.ReturnStmt)
+				}
+				if !single {
+					found = slot
+					return
+				}
+				return // an expression function: shape E
+			}
+			blocked = true // some other call happens first
+		case *ast.BinaryExpr:
+			if e.Op == token.LAND || e.Op == token.LOR {
+				walk(&e.X)
+				if found == nil {
+					blocked = true // the right operand is evaluated conditionally
+				}
+				return
+			}
+			walk(&e.X)
+			walk(&e.Y)
+		case *ast.UnaryExpr:
+			if e.Op == token.ARROW {
+				blocked = true
+				return
+			}
+			walk(&e.X)
+		case *ast.StarExpr:
+			walk(&e.X)
+		case *ast.SelectorExpr:
+			walk(&e.X)
+		case *ast.IndexExpr:
+			walk(&e.X)
+			walk(&e.Index)
+		case *ast.SliceExpr:
+			walk(&e.X)
+			if e.Low != nil {
+				walk(&e.Low)
+			}
+			if e.High != nil {
+				walk(&e.High)
+			}
+		case *ast.CompositeLit:
+			for i := range e.Elts {
+				if kv, ok := e.Elts[i].(*ast.KeyValueExpr); ok {
+					walk(&kv.Value)
+				} else {
+					walk(&e.Elts[i])
+				}
+			}
+		case *ast.KeyValueExpr:
+			walk(&e.Value)
+		case *ast.TypeAssertExpr:
+			walk(&e.X)
+		case *ast.FuncLit:
+			// not evaluated here
+		}
+	}
+	for _, r := range roots {
+		walk(r)
+	}
+	if found == nil {
+		return nil
+	}
+	call := (*found).(*ast.CallExpr)
+	tv, ok := info.Types[call]
+	if !ok || tv.Type == nil {
+		return nil
+	}
+	if _, isTuple := tv.Type.(*types.Tuple); isTuple {
+		return nil
+	}
+	v := types.NewVar(call.Pos(), nil, "hoisted", tv.Type)
+	def := &ast.Ident{NamePos: call.Pos(), Name: "hoisted"}
+	use := &ast.Ident{NamePos: call.Pos(), Name: "hoisted"}
+	info.Defs[def] = v
+	info.Uses[use] = v
+	info.Types[use] = types.TypeAndValue{Type: tv.Type}
+	*found = use
+	return &ast.AssignStmt{Lhs: []ast.Expr{def}, TokPos: call.Pos(), Tok: token.DEFINE, Rhs: []ast.Expr{call}}
 }
